@@ -209,6 +209,74 @@ func init() {
 			failShape("Build: start / failure SetState not found")
 		}
 
+		// logResult: the order of "store the failure flags" and "publish the result", flattened:
+		//   result.Time = ... ; if result.Status.IsFailure() { switch {case X: specific.Store(true)...}; failed.Store(true) } ; internalResults <- result
+		// (either order of the if and the send, any order inside the if; anything else fails closed)
+		lr := findFunc(st, "BuildState", "logResult")
+		var lrProg []string
+		storeOf := func(e ast.Expr) string { // state.progress.<flag>.Store(true)
+			c, ok := isCallTo(e, "Store")
+			if !ok || len(c.Args) != 1 {
+				failShape("logResult: a statement is not flag.Store(true)")
+			}
+			if id, ok := c.Args[0].(*ast.Ident); !ok || id.Name != "true" {
+				failShape("logResult: a flag is stored with something other than true")
+			}
+			fl, ok := c.Fun.(*ast.SelectorExpr).X.(*ast.SelectorExpr)
+			if !ok {
+				failShape("logResult: Store receiver is not a field")
+			}
+			return fl.Sel.Name
+		}
+		for _, stx := range lr.Body.List {
+			switch x := stx.(type) {
+			case *ast.AssignStmt:
+				if se, ok := x.Lhs[0].(*ast.SelectorExpr); !ok || se.Sel.Name != "Time" || len(x.Lhs) != 1 {
+					failShape("logResult: unexpected assignment")
+				}
+				lrProg = append(lrProg, "LRTime")
+			case *ast.SendStmt:
+				if se, ok := x.Chan.(*ast.SelectorExpr); !ok || se.Sel.Name != "internalResults" {
+					failShape("logResult: send on something other than internalResults")
+				}
+				lrProg = append(lrProg, "LRSend")
+			case *ast.IfStmt:
+				if c, ok := isCallTo(x.Cond, "IsFailure"); !ok || len(c.Args) != 0 || x.Else != nil || x.Init != nil {
+					failShape("logResult: the if is not `if result.Status.IsFailure()`")
+				}
+				for _, inner := range x.Body.List {
+					switch y := inner.(type) {
+					case *ast.ExprStmt:
+						if storeOf(y.X) != "failed" {
+							failShape("logResult: top-level store in the failure branch is not progress.failed")
+						}
+						lrProg = append(lrProg, "LRStoreFailed")
+					case *ast.SwitchStmt:
+						seen := map[string]string{}
+						for _, cc := range y.Body.List {
+							cl := cc.(*ast.CaseClause)
+							if len(cl.List) != 1 || len(cl.Body) != 1 {
+								failShape("logResult: a switch case is not `case S: flag.Store(true)`")
+							}
+							es, ok := cl.Body[0].(*ast.ExprStmt)
+							if !ok {
+								failShape("logResult: a switch case is not `case S: flag.Store(true)`")
+							}
+							seen[fmt.Sprint(cl.List[0])] = storeOf(es.X)
+						}
+						if len(seen) != 2 || seen["TargetBuildFailed"] != "buildFailed" || seen["TargetTestFailed"] != "testFailed" {
+							failShape("logResult: the switch does not map TargetBuildFailed/TargetTestFailed to buildFailed/testFailed")
+						}
+						lrProg = append(lrProg, "LRStoreSpecific")
+					default:
+						failShape("logResult: unexpected statement in the failure branch")
+					}
+				}
+			default:
+				failShape("logResult: unexpected statement")
+			}
+		}
+
 		var b strings.Builder
 		b.WriteString("From Coq Require Import List NArith. Import ListNotations.\n")
 		b.WriteString("(* src/core/build_target.go: the BuildTargetState iota block, in declaration order *)\n")
@@ -231,6 +299,9 @@ func init() {
 		b.WriteString("Definition cas_pending : tstate * tstate := " + casPending[0] + ".\n")
 		b.WriteString("(* build.Build: target.SetState(S) on entry; target.SetState(F) when buildTarget returned an error *)\n")
 		b.WriteString("Definition build_start_set := " + startSet + ".\nDefinition build_fail_set := " + failSet + ".\n")
+		b.WriteString("(* logResult on a failure status, flattened in source order: LRStoreSpecific = buildFailed/testFailed.Store(true) (the switch),\n   LRStoreFailed = failed.Store(true), LRSend = internalResults <- result *)\n")
+		b.WriteString("Inductive lr_stmt := LRTime | LRStoreSpecific | LRStoreFailed | LRSend.\n")
+		b.WriteString("Definition logresult_prog : list lr_stmt := [" + strings.Join(lrProg, "; ") + "].\n")
 		return b.String()
 	}
 }
